@@ -143,8 +143,13 @@ Definition common_lock (la lb : list string) : bool :=
 
 Definition conn_scoped (field : string) : bool := starts_with "conn." field.
 
+(* the ResponseWriter's writer is the connection's (newResponseWriter(c.writer, &c.writerMu, ...)):
+   the objects behind the two fields are one *)
+Definition canon_field (f : string) : string :=
+  if String.eqb f "ResponseWriter.writer*" then "conn.writer*" else f.
+
 Definition conflict (a b : gsite) : bool :=
-  String.eqb (g_field a) (g_field b) && (g_write a || g_write b).
+  String.eqb (canon_field (g_field a)) (canon_field (g_field b)) && (g_write a || g_write b).
 
 Definition first_line (calls : list gcall) (fn callee : string) : option nat :=
   match filter (fun c => String.eqb (c_fn c) fn && String.eqb (c_callee c) callee) calls with
